@@ -112,3 +112,9 @@ Fixpoint hrun (b : rb) (ops : list hop) :=
   end.
 Definition hrun_from (o : option rb) (ops : list hop) :=
   match o with Some b => Some (hrun b ops) | None => None end.
+
+(* sample(batch, env=<VecNormalize>): _normalize_obs on observations and next observations,
+   _normalize_reward on rewards (fo / fr = the wrapper's normalize_obs / normalize_reward on tags);
+   actions and dones are returned as stored *)
+Definition get_norm (fo fr : Z -> Z) (b : rb) (i : Z) (e : nat) : Z * Z * Z * Z * Z :=
+  let '(o, a, nx, d, r) := get b i e in (fo o, a, fo nx, d, fr r).
